@@ -3,6 +3,8 @@
 breaks against a scratch worktree of /repo with the change applied (never /repo itself); record which caught it."""
 import json, os, subprocess, sys, time
 V = '/verif'; WT = '/tmp/sweep-repo'
+# the checks are run from a snapshot of /verif (SWEEP_CODE), so that editing /verif during a sweep cannot disturb it
+CODE = os.environ.get('SWEEP_CODE', V)
 ids = sys.argv[1:] or sorted(os.listdir(V + '/seeded'))
 ids = [i for i in ids if os.path.isdir(V + '/seeded/' + i)]
 subprocess.run(['git', '-C', '/repo', 'worktree', 'remove', '--force', WT], stderr=subprocess.DEVNULL)
@@ -15,13 +17,15 @@ try:
         sd = V + '/seeded/' + sid
         meta = json.load(open(sd + '/meta.json'))
         prop = meta.get('property', sid[:3])[:3]
+        key = sid
         extra = {'C01b': ['C11'], 'C02b': ['C10'], 'C05b': ['C10'], 'C04b': ['C10'], 'C06': ['C10'], 'C07': ['C10'], 'C08': ['C10'], 'C10b': ['C08'], 'C11b': ['C16'],
-                 'C16': ['C12'], 'C16b': ['C12'], 'C20': ['C02'], 'C20b': ['C03'], 'C15b': ['C12']}.get(sid, [])
+                 'C16': ['C12'], 'C16b': ['C12'], 'C20': ['C02'], 'C20b': ['C03'], 'C15b': ['C12'],
+                 'R2-C10': ['C05'], 'R2-C13b': ['C17'], 'R2-C09': ['C04'], 'R2-C09b': ['C03'], 'R2-C11b': ['C12'], 'R2-C12': ['C11']}.get(sid, [])
         subprocess.run(['git', '-C', WT, 'apply', sd + '/patch.diff'], check=True)
         out = {}
         for c in [prop] + extra:
             t = time.time()
-            r = subprocess.run(['python3', V + '/checks/run.py', c, 'quick'], stdout=subprocess.PIPE, stderr=subprocess.STDOUT, text=True, cwd=V, env=dict(env, VERIF_EVIDENCE_DIR='/tmp/sweep-evidence'))
+            r = subprocess.run(['python3', CODE + '/checks/run.py', c, 'quick'], stdout=subprocess.PIPE, stderr=subprocess.STDOUT, text=True, cwd=CODE, env=dict(env, VERIF_EVIDENCE_DIR='/tmp/sweep-evidence'))
             first = [l.strip() for l in r.stdout.splitlines() if l.strip().startswith('rejected') or 'VIOLATION fortran' in l or 'VIOLATION header' in l or 'ended abnormally' in l or 'sanitizer report' in l][:1]
             out[c] = dict(rc=r.returncode, seconds=round(time.time() - t), first=(first[0][:400] if first else ''))
             print(sid, c, 'rc=%d' % r.returncode, '%ds' % out[c]['seconds'], (first[0][:200] if first else ''), flush=True)
@@ -32,6 +36,10 @@ try:
         json.dump(meta, open(sd + '/meta.json', 'w'), indent=1)
 finally:
     subprocess.run(['git', '-C', '/repo', 'worktree', 'remove', '--force', WT])
-json.dump(res, open(V + '/seeded/results.json', 'w'), indent=1)
+old = {}
+if sys.argv[1:] and os.path.exists(V + '/seeded/results.json'):
+    old = json.load(open(V + '/seeded/results.json'))
+old.update(res)
+json.dump(old, open(V + '/seeded/results.json', 'w'), indent=1, sort_keys=True)
 miss = [(s, c) for s, o in res.items() for c, v in o.items() if v['rc'] != 1 and c == json.load(open(V + '/seeded/' + s + '/meta.json')).get('property', s[:3])[:3]]
 print('SWEEP DONE: %d seeds; own-property check missed or errored: %s' % (len(res), miss))
